@@ -403,3 +403,223 @@ Print Assumptions C04_adapter_refuted_iff.
 Print Assumptions C04_adapter_partial.
 Print Assumptions C04_adapter_methods.
 Print Assumptions C04_adapter_view.
+
+(* ================================================================================================================
+   The environment made explicit (Model/TransportEnv.v): the fuse descriptor as an oracle of per-call verdicts,
+   virtio-queue's descriptor chain iteration over the driver's tables, the retry loops of file_traits.rs over an
+   oracle of per-call answers.  Proofs in Proofs/TransportDev.v and Proofs/TransportEnv.v.
+   ================================================================================================================ *)
+From FB Require Import Gen.DevShort Gen.FtLoops Model.TransportEnv Proofs.TransportEnv Proofs.TransportDev.
+
+(* ================= the fuse descriptor may refuse or short-write =================
+   [dev k] is the verdict on the k-th write(2)/writev(2) of the run: DAll | DShort k | DFail errno.
+   [strict] = the writer turns a short count into EIO (Gen/DevShort.v says what the current source does). *)
+(* the bytes the device took on a call are a prefix of the packet it was offered; a refused call took nothing *)
+Theorem C04_dev_emitted_prefix : forall c, exists rest, dc_offered c = (emitted c ++ rest)%list.
+Proof. exact emitted_prefix. Qed.
+Theorem C04_dev_refused_took_nothing : forall c e, dc_ret c = DErrno e -> emitted c = [].
+Proof. exact emitted_fail. Qed.
+(* one operation, EVERY oracle: at most one device call (made with the next verdict); a reported success implies
+   that call's own result was a success, a reported device error is that call's result ([op_out]); len <= cap kept,
+   nothing outside the windows written, windows never grow ([d_frame]) *)
+Theorem C04_dev_step : forall strict dev op st, d_wf st ->
+  exists ext, d_calls (snd (dstep strict dev op st)) = (d_calls st ++ ext)%list /\
+    op_out strict (op_raw op) (dev (List.length (d_calls st))) (do_res (fst (dstep strict dev op st))) ext /\
+    d_frame st (snd (dstep strict dev op st)).
+Proof. exact dstep_out. Qed.
+Theorem C04_dev_one_call : forall strict raw v r cs, op_out strict raw v r cs -> (List.length cs <= 1)%nat.
+Proof. exact op_out_length. Qed.
+(* any operation list, every oracle: never more device calls than operations, and the invariants of C04_fusedev_run *)
+Theorem C04_dev_run : forall strict dev ops st, d_wf st ->
+  (exists ext, d_calls (snd (drun strict dev ops st)) = (d_calls st ++ ext)%list /\ (List.length ext <= List.length ops)%nat) /\
+  d_frame st (snd (drun strict dev ops st)).
+Proof. exact drun_inv. Qed.
+(* commit: no call for an unbuffered writer or an empty reply; otherwise exactly one call offering self ++ other;
+   what it returns is what the kernel answered (errno kept: from_raw_os_error) *)
+Theorem C04_dev_commit : forall strict v m w other,
+  let s := read_range m (f_base w) (f_len w) in
+  let o := match other with Some x => read_range m (f_base x) (f_len x) | None => [] end in
+  dw_commit strict v m w other =
+    if negb (f_buffered w) then (DR (ROk 0 []), [])
+    else match (s ++ o)%list with
+         | [] => (DR (ROk 0 []), [])
+         | p => let c := dev_call v (match s, o with _ :: _, _ :: _ => KWritev | _, _ => KWrite end) p in
+                (dev_result strict true c, [c])
+         end.
+Proof. exact dw_commit_spec. Qed.
+(* THE PROPERTY: "success is reported only if the device took the whole packet" holds exactly when short counts are
+   checked; for the source as it is: [dev_strict] *)
+Theorem C04_dev_full_iff : forall strict, dev_full strict <-> strict = true.
+Proof. exact dev_full_iff. Qed.
+Theorem C04_dev_current : dev_full dev_strict <-> dev_strict = true.
+Proof. exact (dev_full_iff dev_strict). Qed.
+(* witness: a split writer holding 4 bytes commits, the device takes 2: Ok(2), and the caller of commit drops the count *)
+Theorem C04_dev_refuted : ~ dev_full false.
+Proof. exact dev_full_refuted. Qed.
+(* what remains true without the check: every device that never short-writes *)
+Theorem C04_dev_partial : forall dev op st, d_wf st -> no_short (dev (List.length (d_calls st))) ->
+  forall ext, d_calls (snd (dstep false dev op st)) = (d_calls st ++ ext)%list ->
+  dres_ok (do_res (fst (dstep false dev op st))) -> Forall dev_whole ext.
+Proof. exact dev_full_no_short. Qed.
+(* a reported device error: exactly one call was made, it failed with that errno, the device took nothing *)
+Theorem C04_dev_error_means_refused : forall dev op st, d_wf st ->
+  dres_dev_err (do_res (fst (dstep false dev op st))) ->
+  exists c e, d_calls (snd (dstep false dev op st)) = (d_calls st ++ [c])%list /\ dc_ret c = DErrno e /\ emitted c = [] /\
+              do_res (fst (dstep false dev op st)) = (if op_raw op then DRaw e else DOther e).
+Proof. exact dev_error_means_refused. Qed.
+(* no second packet: an unbuffered writer that accounted for bytes refuses every write (the assert!) and its commit
+   does nothing -- it never reaches the device again *)
+Theorem C04_dev_poisoned : forall strict dev op st i w, nth_error (d_ws st) i = Some w -> f_buffered w = false -> f_len w <> 0 ->
+  match op with
+  | DWrite j _ | DWriteV j _ | DWriteFrom j _ _ | DWriteAllFrom j _ _ => j = i /\ True
+  | DWriteAll j data => j = i /\ data <> []
+  | _ => False
+  end ->
+  dstep strict dev op st = (dobs1 (DR RPanic) w, mkd (d_mem st) (set_nth i w (d_ws st)) ((d_calls st ++ [])%list)).
+Proof. exact dev_poisoned_silent. Qed.
+Theorem C04_dev_commit_unbuffered : forall strict dev st i w other, nth_error (d_ws st) i = Some w -> f_buffered w = false ->
+  dstep strict dev (DCommit i other) st = (dobs1 (DR (ROk 0 [])) w, mkd (d_mem st) (d_ws st) ((d_calls st ++ [])%list)).
+Proof. exact dev_commit_unbuffered_silent. Qed.
+(* counters: unbuffered write accounts exactly for what the device took; unbuffered write_from accounts for the file
+   data whatever the device took (and reports the device's count) *)
+Theorem C04_dev_write_counts : forall v data m w, f_buffered w = false -> f_check w (lenN data) = None ->
+  let '(r, m', w', cs) := dw_write false v data m w in
+  exists c, cs = [c] /\ dc_offered c = data /\ m' = m /\ f_len w' = f_len w + lenN (emitted c) /\
+            r = (match dc_ret c with DRet k => DR (ROk k []) | DErrno e => DOther e end).
+Proof. exact dev_write_counts. Qed.
+Theorem C04_dev_write_from_counts : forall v count sd m w, f_buffered w = false -> f_check w count = None ->
+  let got := firstn (N.to_nat count) sd in
+  let '(r, m', w', cs) := dw_write_from false v count (Some sd) m w in
+  exists c, cs = [c] /\ dc_offered c = got /\ f_len w' = f_len w + lenN got /\ lenN (emitted c) <= lenN got /\
+            r = (match dc_ret c with DRet k => DR (ROk k []) | DErrno e => DOther e end).
+Proof. exact dev_write_from_counts. Qed.
+(* a device that takes everything: the machine of the theorems above (fw_write, fw_write_from, fw_commit) *)
+Theorem C04_dev_all_write : forall strict data m w,
+  dw_write strict DAll data m w = let '(r, m', w', ps) := fw_write data m w in (DR r, m', w', map (pkt_call KWrite) ps).
+Proof. exact dev_all_write. Qed.
+Theorem C04_dev_all_write_from : forall strict count src m w,
+  dw_write_from strict DAll count src m w = let '(r, m', w', ps) := fw_write_from count src m w in (DR r, m', w', map (pkt_call KWrite) ps).
+Proof. exact dev_all_write_from. Qed.
+Theorem C04_dev_all_commit : forall strict m w other,
+  fst (dw_commit strict DAll m w other) = DR (fst (fw_commit m w other)) /\
+  map dc_offered (snd (dw_commit strict DAll m w other)) = snd (fw_commit m w other) /\
+  Forall dev_whole (snd (dw_commit strict DAll m w other)).
+Proof. exact dev_all_commit. Qed.
+(* non-vacuity: header/payload split; the first commit is refused with EPIPE (32), the second is cut after 3 of 6
+   bytes and still reports Ok(3); an unbuffered write_from whose packet is refused leaves a writer that panics *)
+Example C04_dev_nonvacuous :
+  let st := mkd (mem_init 1) [mkfdw false 1000 0 16] [] in
+  d_wf st /\
+  map do_res (fst (drun false (dev_of [DFail 32; DShort 3]) [DSplit 0 4; DWrite 1 [7; 8]; DWriteAll 0 [1; 2; 3; 4]; DCommit 0 (Some 1%nat); DCommit 0 (Some 1%nat)] st))
+    = [DR (ROk 0 []); DR (ROk 2 []); DR (ROk 0 []); DRaw 32; DR (ROk 3 [])] /\
+  map emitted (d_calls (snd (drun false (dev_of [DFail 32; DShort 3]) [DSplit 0 4; DWrite 1 [7; 8]; DWriteAll 0 [1; 2; 3; 4]; DCommit 0 (Some 1%nat); DCommit 0 (Some 1%nat)] st)))
+    = [[]; [1; 2; 3]] /\
+  map do_res (fst (drun true (dev_of [DShort 3]) [DSplit 0 4; DWrite 1 [7; 8]; DWriteAll 0 [1; 2; 3; 4]; DCommit 0 (Some 1%nat)] st))
+    = [DR (ROk 0 []); DR (ROk 2 []); DR (ROk 0 []); DRaw 5] /\
+  map do_res (fst (drun false (dev_of [DFail 19]) [DWriteFrom 0 4 (Some [9; 9; 9; 9]); DWrite 0 [1]] st)) = [DOther 19; DR RPanic] /\
+  map do_res (fst (drun false (dev_of [DShort 1]) [DWriteAll 0 [5; 6]] st)) = [DR RPanic].
+Proof.
+  cbn zeta. split; [repeat constructor; apply N.leb_le; vm_compute; reflexivity|]. repeat split; vm_compute; reflexivity.
+Qed.
+
+(* ================= chains as the driver's tables describe them (virtio-queue 0.17 DescriptorChain) ================= *)
+(* the model's fuel never runs out: the iterator stops by itself (ttl, at most one switch to an indirect table) *)
+Theorem C04_vq_terminates : forall t q, exists ds, vq_collect t q = Some ds.
+Proof. exact vq_collect_some. Qed.
+(* whatever the tables hold: Error::DescriptorChainOverflow cannot come out of Reader::from_descriptor_chain /
+   VirtioFsWriter::new (the iterator stops before 2^32 bytes), and an accepted chain holds fewer than 2^32 bytes *)
+Theorem C04_vq_no_overflow : forall regions t table qsize head w, fst (from_vq regions t table qsize head w) <> RErr EOverflow.
+Proof. exact from_vq_no_overflow. Qed.
+Theorem C04_vq_avail : forall regions t table qsize head w n x b,
+  from_vq regions t table qsize head w = (ROk n x, b) -> avail b <= U32_MAX /\ consumed b = 0 /\ wf_io b.
+Proof. exact from_vq_avail. Qed.
+(* a plain chain in the table (any number of descriptors up to the queue size, fewer than 2^32 bytes) reaches the
+   constructors unchanged: the list-level model of all theorems above is the table-level model on such tables *)
+Theorem C04_vq_list : forall regions table qsize ds w,
+  N.of_nat (List.length ds) <= qsize -> dlen_total ds <= U32_MAX -> table + 16 * N.of_nat (List.length ds) <= USIZE_MAX ->
+  from_vq regions (tbl_of_list table 0 ds) table qsize 0 w = from_chain regions ds w.
+Proof. exact from_vq_list. Qed.
+(* non-vacuity: a direct descriptor followed by an INDIRECT one whose table holds a readable and a writable
+   descriptor; a chain cut where 2^32 bytes would be exceeded; a two-descriptor loop cut by the queue size *)
+Example C04_vq_nonvacuous :
+  let regs := [(1048576, 8388608)] in
+  let t1 := [(0, mkrd 1048576 8 true false false 1); (16, mkrd 512 32 false false true 0);
+             (512, mkrd 1048600 4 true false false 1); (528, mkrd 1052672 100 false true false 0)] in
+  option_map (map desc_of) (vq_collect t1 (vq_new 0 16 0)) =
+    Some [mkdesc 1048576 8 false; mkdesc 1048600 4 false; mkdesc 1052672 100 true] /\
+  avail (snd (from_vq regs t1 0 16 0 true)) = 100 /\
+  (let t2 := [(0, mkrd 1048576 4294967000 true true false 1); (16, mkrd 1048576 296 false true false 0)] in
+   option_map (@List.length rdesc) (vq_collect t2 (vq_new 0 16 0)) = Some 1%nat) /\
+  (let t3 := [(0, mkrd 1048576 1 true true false 1); (16, mkrd 1048577 1 true true false 0)] in
+   option_map (@List.length rdesc) (vq_collect t3 (vq_new 0 4 0)) = Some 4%nat).
+Proof. cbn zeta. repeat split; vm_compute; reflexivity. Qed.
+
+(* ================= the retry loops of file_traits.rs, for every sequence of per-call answers ================= *)
+(* read_exact_volatile / write_all_volatile (retry = false, at = false), read_exact_at_volatile /
+   write_all_at_volatile (retry = at = true): the slice offsets touched by the successful calls are exactly
+   0, 1, ..., total-1 in this order (a prefix; nothing repeated, nothing skipped), the file offsets likewise from
+   foff; total <= len; success iff everything was transferred; Interrupted surfaces only from the loops without a
+   retry arm *)
+Theorem C04_ft_loop : forall retry at_ orc fuel len foff r c log,
+  (at_ = true -> foff + len <= USIZE_MAX) ->
+  ft_loop retry at_ orc fuel 0 len 0 foff [] = (r, c, log) ->
+  x_ranges log = addrs 0 (log_total log) /\ f_ranges log = addrs foff (log_total log) /\ log_total log <= len /\
+  (r = LOk -> log_total log = len) /\ (r <> LFuel -> log_total log = len -> r = LOk) /\ (r = LIntr -> retry = false).
+Proof. exact ft_loop_spec. Qed.
+Theorem C04_ft_loop_fuel : forall at_ orc fuel call len done foff log,
+  done <= len -> (N.to_nat (len - done) < fuel)%nat -> fst (fst (ft_loop false at_ orc fuel call len done foff log)) <> LFuel.
+Proof. exact ft_loop_fuel. Qed.
+Theorem C04_ft_loop_fuel_retry : forall at_ orc fuel call len done foff log,
+  done <= len -> (forall k, (call <= k < call + fuel)%nat -> orc k <> CIntr) -> (N.to_nat (len - done) < fuel)%nat ->
+  fst (fst (ft_loop true at_ orc fuel call len done foff log)) <> LFuel.
+Proof. exact ft_loop_fuel_retry. Qed.
+(* the default vectored methods: "the first nonempty buffer" (their documentation) holds exactly for those that do
+   not use bufs.first(); for the source as it is: the flags of Gen/FtLoops.v *)
+Theorem C04_ft_vectored_doc_iff : forall first_only, vectored_doc first_only <-> first_only = false.
+Proof. exact vectored_doc_iff. Qed.
+Theorem C04_ft_vectored_current :
+  (vectored_doc ft_first_only_read_vectored_volatile <-> ft_first_only_read_vectored_volatile = false) /\
+  (vectored_doc ft_first_only_write_vectored_volatile <-> ft_first_only_write_vectored_volatile = false) /\
+  (vectored_doc ft_first_only_read_vectored_at_volatile <-> ft_first_only_read_vectored_at_volatile = false) /\
+  (vectored_doc ft_first_only_write_vectored_at_volatile <-> ft_first_only_write_vectored_at_volatile = false).
+Proof. exact (conj (vectored_doc_iff _) (conj (vectored_doc_iff _) (conj (vectored_doc_iff _) (vectored_doc_iff _)))). Qed.
+Theorem C04_ft_vectored_first_partial : forall lens, match lens with l :: _ => l <> 0 | [] => True end ->
+  dflt_vectored true lens = first_nonempty 0 lens.
+Proof. exact vectored_first_partial. Qed.
+Example C04_ft_nonvacuous :
+  ft_read_exact (orc_of [COk 3; COk 5; COk 2]) 20 10 = (LOk, 3%nat, [mkx 0 0 3; mkx 3 3 5; mkx 8 8 2]) /\
+  ft_read_exact (orc_of [COk 3; CIntr; COk 7]) 20 10 = (LIntr, 2%nat, [mkx 0 0 3]) /\
+  ft_read_exact_at (orc_of [COk 3; CIntr; COk 7]) 20 10 100 = (LOk, 3%nat, [mkx 0 100 3; mkx 3 103 7]) /\
+  ft_write_all_at (orc_of [COk 4; COk 0]) 20 10 7 = (LEof, 2%nat, [mkx 0 7 4]) /\
+  ft_write_all (orc_of [COk 11]) 20 10 = (LPanic, 1%nat, []) /\
+  dflt_vectored true [0; 5] = Some 0%nat /\ first_nonempty 0 [0; 5] = Some 1%nat.
+Proof. repeat split; vm_compute; reflexivity. Qed.
+
+Print Assumptions C04_dev_emitted_prefix.
+Print Assumptions C04_dev_refused_took_nothing.
+Print Assumptions C04_dev_step.
+Print Assumptions C04_dev_one_call.
+Print Assumptions C04_dev_run.
+Print Assumptions C04_dev_commit.
+Print Assumptions C04_dev_full_iff.
+Print Assumptions C04_dev_current.
+Print Assumptions C04_dev_refuted.
+Print Assumptions C04_dev_partial.
+Print Assumptions C04_dev_error_means_refused.
+Print Assumptions C04_dev_poisoned.
+Print Assumptions C04_dev_commit_unbuffered.
+Print Assumptions C04_dev_write_counts.
+Print Assumptions C04_dev_write_from_counts.
+Print Assumptions C04_dev_all_write.
+Print Assumptions C04_dev_all_write_from.
+Print Assumptions C04_dev_all_commit.
+Print Assumptions C04_vq_terminates.
+Print Assumptions C04_vq_no_overflow.
+Print Assumptions C04_vq_avail.
+Print Assumptions C04_vq_list.
+Print Assumptions C04_ft_loop.
+Print Assumptions C04_ft_loop_fuel.
+Print Assumptions C04_ft_loop_fuel_retry.
+Print Assumptions C04_ft_vectored_doc_iff.
+Print Assumptions C04_ft_vectored_current.
+Print Assumptions C04_ft_vectored_first_partial.
